@@ -196,19 +196,40 @@ the replies waiting to be delivered -/
 def mu (c : Cfg) : Nat :=
   (c.evq.map evW).sum + 3 * c.timers.length + (c.rpq.filter (fun r => !r.unacked)).length
 
+/-- Task visits still to come -/
+def tasksIn : Sk → Nat
+  | .task _ r => tasksIn r + 1
+  | .step r => tasksIn r
+  | .wait r => tasksIn r
+  | _ => 0
+
+/-- requests sent plus Task visits the events in the queue still have before them -/
+def load (c : Cfg) : Nat := c.sent.length + (c.evq.map (fun e => tasksIn (todoOf e.kind))).sum
+/-- events whose request is out -/
+def inflight (c : Cfg) : Nat := (c.evq.filter (fun e => c.sent.contains e.id)).length
+
+/-- conserved as long as no handler is cut short: one thread of control (an event, or the terminal notification), `N`
+Task visits in all (sent, or still to come), and no reply without its event -/
+structure Cons (N : Nat) (c : Cfg) : Prop where
+  psi : c.notes + c.evq.length = 1
+  phi : load c = N + inflight c
+  fresh : ∀ r ∈ c.rpq, ∃ e ∈ c.evq, e.id = r.corr
+
 /-- the outcome of a handler invocation: the invariant holds again and, when it was not cut short, there is less left
 to do (`dec`: for the operations the canonical schedule uses) -/
 structure Good (c c' : Cfg) (cut : Option Nat) (dec : Prop) : Prop where
   inv : SInv c'
   less : cut = none → dec → mu c' < mu c
+  cons : cut = none → ∀ N, Cons N c → Cons N c'
 
 theorem good_handler {c c1 : Cfg} {acts : List Act} {v : Vol} {dec : Prop} (cut : Option Nat) (hd : Dur SeqK c1)
     (hok : ok SeqK c1 acts) (hj : v.joins = [])
-    (hv : VolI ((acts.foldl Cfg.act c1).withVol v) ∧ (dec → mu ((acts.foldl Cfg.act c1).withVol v) < mu c)) :
+    (hv : VolI ((acts.foldl Cfg.act c1).withVol v) ∧ (dec → mu ((acts.foldl Cfg.act c1).withVol v) < mu c) ∧
+      (∀ N, Cons N c → Cons N ((acts.foldl Cfg.act c1).withVol v))) :
     Good c (c1.handler acts v cut) cut dec := by
   cases cut with
-  | none => exact ⟨⟨(hd.all hok).withVol v, hv.1, hj⟩, fun _ hdec => hv.2 hdec⟩
-  | some k => exact ⟨⟨(hd.take hok k).crash, VolI.crash _, rfl⟩, fun hc => by cases hc⟩
+  | none => exact ⟨⟨(hd.all hok).withVol v, hv.1, hj⟩, fun _ hdec => hv.2.1 hdec, fun _ => hv.2.2⟩
+  | some k => exact ⟨⟨(hd.take hok k).crash, VolI.crash _, rfl⟩, fun hc => (by cases hc), fun hc => (by cases hc)⟩
 
 theorem length_insertNat_new {x : Nat} {xs : List Nat} (h : x ∉ xs) : (insertNat x xs).length = xs.length + 1 := by
   unfold insertNat
@@ -218,6 +239,16 @@ theorem length_erase_mem {x : Nat} {xs : List Nat} (h : x ∈ xs) : (xs.erase x)
   rw [List.length_erase_of_mem h]
   have : 0 < xs.length := List.length_pos_of_mem h
   omega
+
+macro "cons_tac" "[" ts:Lean.Parser.Tactic.simpLemma,* "]" : tactic => `(tactic|
+  (intro N hcons
+   obtain ⟨hpsi, hphi, hfresh⟩ := hcons
+   refine ⟨?_, ?_, ?_⟩
+   · simp only [Cfg.withVol, List.foldl, List.length_append, List.length_cons, List.length_nil, $ts,*] at hpsi ⊢ <;> omega
+   · simp only [load, inflight, Cfg.withVol, List.foldl, List.map_append, List.map_cons, List.map_nil, List.sum_append,
+       List.sum_cons, List.sum_nil, List.filter_append, List.filter_cons, List.filter_nil, List.length_append,
+       List.length_cons, List.length_nil, todoOf, tasksIn, Bool.false_eq_true, if_true, if_false, $ts,*] at hphi ⊢ <;> omega
+   · simp only [Cfg.withVol, List.foldl, $ts,*] at hfresh ⊢ <;> grind))
 
 macro "mu_tac" "[" ts:Lean.Parser.Tactic.simpLemma,* "]" : tactic => `(tactic|
   (simp only [mu, evW, Cfg.withVol, Cfg.vol, List.foldl, List.map_append, List.map_cons, List.map_nil, List.sum_append,
@@ -311,14 +342,24 @@ theorem good_ev (c c' : Cfg) (id : Nat) (cut : Option Nat) (h : SInv c)
     rw [← hid'] at h1' h2' hlt hs hlen
     have hkm' : m'.kind = .visit t [] start none := hk' ▸ hk
     have hj0 : ({ c with evq := l1 ++ m' :: l2 } : Cfg).vol.joins = [] := hnj
+    have hnx : c.sent.contains c.nextId = false := by
+      have : c.nextId ∉ c.sent := fun hh => Nat.lt_irrefl _ (h.dur.sentlt _ hh)
+      simpa using this
+    have hcs : ∀ r ∈ c.rpq, r.corr ∈ c.sent := fun r hr => h.dur.corrsent _ (List.mem_map.mpr ⟨r, hr, rfl⟩)
+    have hnontask : isTaskKind m.kind = false → m.id ∉ c.sent := by
+      intro hnt hh
+      have := (h.dur.reply _ (mem_evK hm) hh).1
+      rw [hnt] at this; cases this
     cases t with
     | wait rest =>
       simp only [Option.some.injEq] at hs
       subst hs
       refine good_handler cut hd1 (ok_pre_only _ start) (by simp [Cfg.vol, hnj]) ?_
       rw [fold_pre]
-      refine ⟨by voli_grind, fun _ => ?_⟩
-      mu_tac [he, hu, hu', hk, hkm', hlen]
+      refine ⟨by voli_grind, fun _ => by mu_tac [he, hu, hu', hk, hkm', hlen], ?_⟩
+      have hns := hnontask (by rw [hk]; rfl)
+      have hnsb : c.sent.contains m.id = false := by simpa using hns
+      cons_tac [he, hk, hkm', hid', hnsb, hnx]
     | done =>
       simp only [advance_done_top, Option.some.injEq] at hs
       subst hs
@@ -329,8 +370,10 @@ theorem good_ev (c c' : Cfg) (id : Nat) (cut : Option Nat) (h : SInv c)
       have hq := ack_split h1' h2' (l3 := []) (by simp) hu'
       simp only [List.append_nil] at hq
       simp only [hq, ackRq]
-      refine ⟨by voli_grind, fun _ => ?_⟩
-      mu_tac [he, hu, hk]
+      refine ⟨by voli_grind, fun _ => by mu_tac [he, hu, hk], ?_⟩
+      have hns := hnontask (by rw [hk]; rfl)
+      have hnsb : c.sent.contains m.id = false := by simpa using hns
+      cons_tac [he, hk, hkm', hid', hnsb, hnx]
     | step rest =>
       have hrs : rest.seq = true := hseq
       rcases seq_cases hrs with rfl | ⟨hv, hkk⟩
@@ -343,8 +386,10 @@ theorem good_ev (c c' : Cfg) (id : Nat) (cut : Option Nat) (h : SInv c)
         have hq := ack_split h1' h2' (l3 := []) (by simp) hu'
         simp only [List.append_nil] at hq
         simp only [hq, ackRq]
-        refine ⟨by voli_grind, fun _ => ?_⟩
-        mu_tac [he, hu, hk]
+        refine ⟨by voli_grind, fun _ => by mu_tac [he, hu, hk], ?_⟩
+        have hns := hnontask (by rw [hk]; rfl)
+        have hnsb : c.sent.contains m.id = false := by simpa using hns
+        cons_tac [he, hk, hkm', hid', hnsb, hnx]
       · simp only [advance_next _ _ _ _ _ _ _ _ _ hv, Option.some.injEq] at hs
         subst hs
         refine good_handler cut hd1 (ok_next start none hc1 h1' h2' hu' hlt hkk (by simp)) (by simp [Cfg.vol, hnj]) ?_
@@ -354,8 +399,10 @@ theorem good_ev (c c' : Cfg) (id : Nat) (cut : Option Nat) (h : SInv c)
         have hq := ack_split h1' h2' (l3 := [({ id := c.nextId, kind := .visit rest [] false none } : QEv)])
           (by intro e he; simp at he; subst he; simp; omega) hu'
         simp only [hq, ackRq]
-        refine ⟨by voli_grind, fun _ => ?_⟩
-        mu_tac [he, hu, hk]
+        refine ⟨by voli_grind, fun _ => by mu_tac [he, hu, hk], ?_⟩
+        have hns := hnontask (by rw [hk]; rfl)
+        have hnsb : c.sent.contains m.id = false := by simpa using hns
+        cons_tac [he, hk, hkm', hid', hnsb, hnx]
     | task rc rest =>
       cases rc with
       | zero =>
@@ -366,22 +413,33 @@ theorem good_ev (c c' : Cfg) (id : Nat) (cut : Option Nat) (h : SInv c)
           subst hs
           refine good_handler cut hd1 (ok_pre_only _ start) (by simp [Cfg.vol, hnj]) ?_
           rw [fold_pre]
-          refine ⟨by voli_grind, fun _ => ?_⟩
-          mu_tac [he, hu, hu', hk, hkm']
+          refine ⟨by voli_grind, fun _ => by mu_tac [he, hu, hu', hk, hkm'], ?_⟩
+          have hsnb : c.sent.contains m.id = true := by rw [← hid']; simpa using hsn
+          cons_tac [he, hk, hkm', hid', hsnb, hnx]
         · rw [if_neg hsn] at hs
           subst hs
           refine good_handler cut hd1 (ok_send (m := m') start (by simp) (by rw [hkm']; rfl) hsn) (by simp [Cfg.vol, hnj]) ?_
           rw [fold_send_pre]
-          refine ⟨by voli_grind, fun _ => ?_⟩
-          mu_tac [he, hu, hu', hk, hkm']
+          refine ⟨by voli_grind, fun _ => by mu_tac [he, hu, hu', hk, hkm'], ?_⟩
+          have hsnb : c.sent.contains m.id = false := by rw [← hid']; simpa using hsn
+          have hf1 : l1.filter (fun e => (c.sent ++ [m.id]).contains e.id) = l1.filter (fun e => c.sent.contains e.id) :=
+            List.filter_congr (fun e he' => by have := h1 e he'; simp [this])
+          have hf2 : l2.filter (fun e => (c.sent ++ [m.id]).contains e.id) = l2.filter (fun e => c.sent.contains e.id) :=
+            List.filter_congr (fun e he' => by have := h2 e he'; simp [this])
+          have hself : (c.sent ++ [m.id]).contains m.id = true := by simp
+          cons_tac [he, hk, hkm', hid', hsnb, hnx, hf1, hf2, hself]
       | succ rc =>
         simp only [Quirks.none, Bool.false_or, Nat.succ_ne_zero, bne_iff_ne, ne_eq, not_false_eq_true, decide_true,
           if_true, Option.some.injEq] at hs
         subst hs
         refine good_handler cut hd1 (ok_pre_only _ start) (by simp [Cfg.vol, hnj]) ?_
         rw [fold_pre]
-        refine ⟨by voli_grind, fun _ => ?_⟩
-        mu_tac [he, hu, hu', hk, hkm', hlen]
+        refine ⟨by voli_grind, fun _ => by mu_tac [he, hu, hu', hk, hkm', hlen], ?_⟩
+        by_cases hsn : m.id ∈ c.sent
+        · have hsnb : c.sent.contains m.id = true := by simpa using hsn
+          cons_tac [he, hk, hkm', hid', hsnb, hnx]
+        · have hsnb : c.sent.contains m.id = false := by simpa using hsn
+          cons_tac [he, hk, hkm', hid', hsnb, hnx]
     | par _ _ _ => simp [Sk.seq] at hseq
     | child _ _ _ => simp [Sk.seq] at hseq
     | fail _ _ => simp [Sk.seq] at hseq
@@ -390,7 +448,8 @@ theorem good_ev (c c' : Cfg) (id : Nat) (cut : Option Nat) (h : SInv c)
 theorem withVol_vol (c : Cfg) : c.withVol c.vol = c := rfl
 
 theorem good_noop (c : Cfg) (cut : Option Nat) (h : SInv c) : Good c (c.handler [] c.vol cut) cut False :=
-  good_handler cut h.dur trivial (by simp [Cfg.vol, h.nojoin]) ⟨by simpa [withVol_vol] using h.vol, fun hf => hf.elim⟩
+  good_handler cut h.dur trivial (by simp [Cfg.vol, h.nojoin])
+    ⟨by simpa [withVol_vol] using h.vol, fun hf => hf.elim, fun N hc => by simpa [withVol_vol] using hc⟩
 
 /-- the unacknowledged event with a given id, and the queue around it -/
 theorem unacked_split {c : Cfg} (h : SInv c) {id : Nat} (hid : id ∈ uEv c.evq) :
@@ -435,6 +494,14 @@ theorem good_tm (c c' : Cfg) (id : Nat) (cut : Option Nat) (h : SInv c)
     have hn2 : m.id ∉ uEv l2 := mem_uEv_ne h2
     rw [he] at t_sub p_sub he_sub u_ev t_kind p_kind
     simp only [hk, hn] at hs
+    have hnx : c.sent.contains c.nextId = false := by
+      have : c.nextId ∉ c.sent := fun hh => Nat.lt_irrefl _ (h.dur.sentlt _ hh)
+      simpa using this
+    have hcs : ∀ r ∈ c.rpq, r.corr ∈ c.sent := fun r hr => h.dur.corrsent _ (List.mem_map.mpr ⟨r, hr, rfl⟩)
+    have hnontask : isTaskKind m.kind = false → m.id ∉ c.sent := by
+      intro hnt hh
+      have := (h.dur.reply _ (mem_evK hm) hh).1
+      rw [hnt] at this; cases this
     cases t with
     | wait rest =>
       have hrs : rest.seq = true := hseq
@@ -448,8 +515,10 @@ theorem good_tm (c c' : Cfg) (id : Nat) (cut : Option Nat) (h : SInv c)
         have hq := ack_split h1 h2 (l3 := []) (by simp) hu
         simp only [List.append_nil] at hq
         simp only [he, hq, ackRq]
-        refine ⟨by voli_grind, fun _ => ?_⟩
-        mu_tac [he, hu, hk]
+        refine ⟨by voli_grind, fun _ => by mu_tac [he, hu, hk], ?_⟩
+        have hns := hnontask (by rw [hk]; rfl)
+        have hnsb : c.sent.contains m.id = false := by simpa using hns
+        cons_tac [he, hk, hnsb, hnx]
       · simp only [advance_next _ _ _ _ _ _ _ _ _ hv, Option.some.injEq] at hs
         subst hs
         refine good_handler cut h.dur (ok_next false none he h1 h2 hu hlt hkk (by simp)) (by simp [Cfg.vol, hnj]) ?_
@@ -459,16 +528,19 @@ theorem good_tm (c c' : Cfg) (id : Nat) (cut : Option Nat) (h : SInv c)
         have hq := ack_split h1 h2 (l3 := [({ id := c.nextId, kind := .visit rest [] false none } : QEv)])
           (by intro e he; simp at he; subst he; simp; omega) hu
         simp only [he, hq, ackRq]
-        refine ⟨by voli_grind, fun _ => ?_⟩
-        mu_tac [he, hu, hk]
+        refine ⟨by voli_grind, fun _ => by mu_tac [he, hu, hk], ?_⟩
+        have hns := hnontask (by rw [hk]; rfl)
+        have hnsb : c.sent.contains m.id = false := by simpa using hns
+        cons_tac [he, hk, hnsb, hnx]
     | task rc rest =>
       simp only [Quirks.none, Bool.false_eq_true, if_false, requestOf, Option.some.injEq, List.contains_iff_mem] at hs
       by_cases hsn : m.id ∈ c.sent
       · simp only [hsn, if_true] at hs
         subst hs
         refine good_handler cut h.dur trivial (by simp [Cfg.vol, hnj]) ?_
-        refine ⟨by voli_grind_with [he], fun _ => ?_⟩
-        mu_tac [he, hu, hk]
+        refine ⟨by voli_grind_with [he], fun _ => by mu_tac [he, hu, hk], ?_⟩
+        have hsnb : c.sent.contains m.id = true := by simpa using hsn
+        cons_tac [he, hk, hsnb, hnx]
       · simp only [hsn, if_false] at hs
         subst hs
         refine good_handler cut h.dur (ok_send (m := m) false hm (by rw [hk]; rfl) hsn) (by simp [Cfg.vol, hnj]) ?_
@@ -476,8 +548,14 @@ theorem good_tm (c c' : Cfg) (id : Nat) (cut : Option Nat) (h : SInv c)
         simp only [preOf, Bool.false_eq_true, if_false, List.append_nil] at this ⊢
         rw [this]
         simp only [he]
-        refine ⟨by voli_grind, fun _ => ?_⟩
-        mu_tac [he, hu, hk]
+        refine ⟨by voli_grind, fun _ => by mu_tac [he, hu, hk], ?_⟩
+        have hsnb : c.sent.contains m.id = false := by simpa using hsn
+        have hf1 : l1.filter (fun e => (c.sent ++ [m.id]).contains e.id) = l1.filter (fun e => c.sent.contains e.id) :=
+          List.filter_congr (fun e he' => by have := h1 e he'; simp [this])
+        have hf2 : l2.filter (fun e => (c.sent ++ [m.id]).contains e.id) = l2.filter (fun e => c.sent.contains e.id) :=
+          List.filter_congr (fun e he' => by have := h2 e he'; simp [this])
+        have hself : (c.sent ++ [m.id]).contains m.id = true := by simp
+        cons_tac [he, hk, hsnb, hnx, hf1, hf2, hself]
     | done => simp at hs
     | step _ => simp at hs
     | par _ _ _ => simp [Sk.seq] at hseq
@@ -488,7 +566,7 @@ theorem good_tm (c c' : Cfg) (id : Nat) (cut : Option Nat) (h : SInv c)
     rw [hc'] at hs
     simp only [if_true] at hs
     have weaken : ∀ {x : Cfg}, Good c x cut False → Good c x cut (id ∈ c.timers) :=
-      fun g => ⟨g.inv, fun _ hd => absurd hd hc⟩
+      fun g => ⟨g.inv, fun _ hd => absurd hd hc, g.cons⟩
     cases hf : findEv c id true with
     | none => rw [hf] at hs; cases hs
     | some m =>
@@ -554,6 +632,11 @@ theorem good_reply (c c' : Cfg) (cut : Option Nat) (h : SInv c) {m : QEv} {l1 l2
   rw [he] at t_sub p_sub he_sub u_ev t_kind p_kind
   rw [hr] at o_sub hr_sub u_rp
   simp only [onReply, hf, hk] at hon
+  have hnx : c.sent.contains c.nextId = false := by
+    have : c.nextId ∉ c.sent := fun hh => Nat.lt_irrefl _ (h.dur.sentlt _ hh)
+    simpa using this
+  have hcs : ∀ r ∈ c.rpq, r.corr ∈ c.sent := fun r hr => h.dur.corrsent _ (List.mem_map.mpr ⟨r, hr, rfl⟩)
+  have hsnb : c.sent.contains m.id = true := by simpa using (h.vol.p_sub _ hp).2
   cases t with
   | task rc rest =>
     have hrs : rest.seq = true := hseq
@@ -573,10 +656,11 @@ theorem good_reply (c c' : Cfg) (cut : Option Nat) (h : SInv c) {m : QEv} {l1 l2
         rcases hrdy with h | h
         · rw [h]; exact Nat.le_refl _
         · omega
-      refine ⟨by voli_grind, fun _ => ?_⟩
-      simp only [mu, evW, Cfg.withVol, he, hr, List.map_append, List.map_cons, List.map_nil, List.sum_append, List.sum_cons,
-        List.sum_nil, hu, hk, todoOf, visits, if_true, Bool.false_eq_true, if_false]
-      omega
+      refine ⟨by voli_grind, fun _ => ?_, ?_⟩
+      · simp only [mu, evW, Cfg.withVol, he, hr, List.map_append, List.map_cons, List.map_nil, List.sum_append, List.sum_cons,
+          List.sum_nil, hu, hk, todoOf, visits, if_true, Bool.false_eq_true, if_false]
+        omega
+      · cons_tac [he, hr, hk, hsnb, hnx]
     · simp only [advance_next _ _ _ _ _ _ _ _ _ hv, Option.some.injEq, Prod.mk.injEq] at hon
       obtain ⟨rfl, rfl⟩ := hon
       subst hs
@@ -591,10 +675,11 @@ theorem good_reply (c c' : Cfg) (cut : Option Nat) (h : SInv c) {m : QEv} {l1 l2
         rcases hrdy with h | h
         · rw [h]; exact Nat.le_refl _
         · omega
-      refine ⟨by voli_grind, fun _ => ?_⟩
-      simp only [mu, evW, Cfg.withVol, he, hr, List.map_append, List.map_cons, List.map_nil, List.sum_append, List.sum_cons,
-        List.sum_nil, hu, hk, todoOf, visits, if_true, Bool.false_eq_true, if_false]
-      omega
+      refine ⟨by voli_grind, fun _ => ?_, ?_⟩
+      · simp only [mu, evW, Cfg.withVol, he, hr, List.map_append, List.map_cons, List.map_nil, List.sum_append, List.sum_cons,
+          List.sum_nil, hu, hk, todoOf, visits, if_true, Bool.false_eq_true, if_false]
+        omega
+      · cons_tac [he, hr, hk, hsnb, hnx]
   | done => rw [hk] at hpk; simp [isTaskKind] at hpk
   | step _ => rw [hk] at hpk; simp [isTaskKind] at hpk
   | wait _ => rw [hk] at hpk; simp [isTaskKind] at hpk
@@ -657,8 +742,18 @@ theorem good_rp (c c' : Cfg) (corr : Nat) (cut : Option Nat) (h : SInv c)
       have hE : heldE c.joins = [] := by rw [hnj]; rfl
       have hR : heldR c.joins = [] := by rw [hnj]; rfl
       rw [hk] at o_sub hr_sub u_rp
-      refine ⟨by voli_grind, fun _ => ?_⟩
-      mu_tac [hk, hru]
+      refine ⟨by voli_grind, fun _ => by mu_tac [hk, hru], ?_⟩
+      intro N hcons
+      obtain ⟨hpsi, hphi, hfresh⟩ := hcons
+      refine ⟨hpsi, hphi, ?_⟩
+      intro x hx
+      have hx' : x ∈ k1 ++ { r with unacked := true } :: k2 := hx
+      show ∃ e ∈ c.evq, e.id = x.corr
+      rcases List.mem_append.mp hx' with hx1 | hx1
+      · exact hfresh x (by rw [hk]; exact List.mem_append_left _ hx1)
+      · rcases List.mem_cons.mp hx1 with rfl | hx2
+        · exact hfresh r hr
+        · exact hfresh x (by rw [hk]; exact List.mem_append_right _ (List.mem_cons_of_mem _ hx2))
   · have : (!c.rpq.any (fun r => r.corr == corr && !r.unacked)) = true := by simp [hany]
     rw [if_pos this] at hs
     cases hs
@@ -674,7 +769,7 @@ theorem good_tick (c c' : Cfg) (cut : Option Nat) (h : SInv c)
     simp only [Option.some.injEq] at hs
     subst hs
     have hnone := List.find?_eq_none.mp hf
-    exact ⟨(good_noop c cut h).inv, fun _ ⟨o, ho, hp⟩ => absurd (by simpa using hp) (hnone o ho)⟩
+    exact ⟨(good_noop c cut h).inv, fun _ ⟨o, ho, hp⟩ => absurd (by simpa using hp) (hnone o ho), (good_noop c cut h).cons⟩
   | some corr =>
     rw [hf] at hs
     simp only at hs
@@ -692,7 +787,7 @@ theorem good_tick (c c' : Cfg) (cut : Option Nat) (h : SInv c)
       have g := good_reply c c' cut h (c.orphans.erase m.id) he hu h1 h2 hp hk hrc g1 g2 r rfl hru
         (fun a => List.Nodup.mem_erase_iff h.vol.ond) (h.vol.ond.erase _) (fun _ => ho) m.id rfl hon
         (Or.inl (by simp [List.filter_append, hru])) (Option.some.inj hs).symm
-      exact ⟨g.inv, fun hc _ => g.less hc trivial⟩
+      exact ⟨g.inv, fun hc _ => g.less hc trivial, g.cons⟩
     · cases hs
 
 theorem sinv_step (c c' : Cfg) (op : Op) (cut : Option Nat) (h : SInv c)
@@ -896,5 +991,112 @@ theorem sdrain (fuel : Nat) (c : Cfg) (h : SInv c) (hf : mu c ≤ fuel) :
       obtain ⟨c', hs, hi, hlt⟩ := canon_progress c h op hop
       simp only [hs]
       exact ih c' hi (by omega)
+
+
+/-! ### exactly once, when no handler is cut short -/
+
+theorem Cons.crash {N : Nat} {c : Cfg} (h : Cons N c) : Cons N c.crash := by
+  obtain ⟨hpsi, hphi, hfresh⟩ := h
+  have hlen : c.crash.evq.length = c.evq.length := by simp [Cfg.crash]
+  have hload : load c.crash = load c := by
+    simp only [load, Cfg.crash, List.map_map]
+    congr 2
+    apply List.map_congr_left
+    intro e _
+    simp only [Function.comp]
+    split <;> rfl
+  have hin : inflight c.crash = inflight c := by
+    simp only [inflight, Cfg.crash, List.filter_map, List.length_map]
+    congr 1
+    apply List.filter_congr
+    intro e _
+    simp only [Function.comp]
+    split <;> rfl
+  refine ⟨?_, ?_, ?_⟩
+  · show c.notes + c.crash.evq.length = 1
+    rw [hlen]; exact hpsi
+  · rw [hload, hin]; exact hphi
+  · intro r hr
+    obtain ⟨r0, hr0, rfl⟩ := List.mem_map.mp hr
+    obtain ⟨e, he, hid⟩ := hfresh r0 hr0
+    refine ⟨_, List.mem_map.mpr ⟨e, he, rfl⟩, ?_⟩
+    have h1 : ∀ (x : QEv), (if x.unacked = true then { x with unacked := false, redelivered := true } else x).id = x.id := by
+      intro x; split <;> rfl
+    have h2 : ∀ (x : QRp), (if x.unacked = true then { x with unacked := false, redelivered := true } else x).corr = x.corr := by
+      intro x; split <;> rfl
+    rw [h1, h2]; exact hid
+
+theorem cons_step (N : Nat) (c c' : Cfg) (op : Op) (h : SInv c) (hc : Cons N c)
+    (hs : step Quirks.none c op none = some c') : Cons N c' := by
+  cases op with
+  | ev id => exact (good_ev c c' id none h hs).cons rfl N hc
+  | tm id => exact (good_tm c c' id none h hs).cons rfl N hc
+  | rp corr => exact (good_rp c c' corr none h hs).cons rfl N hc
+  | tick => exact (good_tick c c' none h hs).cons rfl N hc
+  | crash =>
+    unfold step at hs
+    rw [if_neg (by simp [h.dur.nodiv])] at hs
+    simp only [Option.some.injEq] at hs
+    subst hs
+    exact hc.crash
+
+/-- every executable schedule whose crashes fall between handler invocations keeps the conservation laws -/
+theorem cons_run (N : Nat) (c c' : Cfg) (ops : List Op) (h : SInv c) (hc : Cons N c)
+    (hr : run Quirks.none c (ops.map (fun o => (o, none))) = some c') : Cons N c' := by
+  induction ops generalizing c with
+  | nil => simp [run] at hr; exact hr ▸ hc
+  | cons op rest ih =>
+    simp only [List.map_cons, run] at hr
+    split at hr
+    · rename_i c1 h1
+      exact ih c1 (sinv_step c c1 op none h h1) (cons_step N c c1 op h hc h1) hr
+    · cases hr
+
+theorem sdrain_cons (N : Nat) (fuel : Nat) (c : Cfg) (h : SInv c) (hc : Cons N c) :
+    Cons N (drain Quirks.none fuel c) := by
+  induction fuel generalizing c with
+  | zero => simpa [drain] using hc
+  | succ fuel ih =>
+    simp only [drain, h.dur.nodiv, Bool.false_eq_true, if_false]
+    cases hop : nextOp c with
+    | none => exact hc
+    | some op =>
+      obtain ⟨c', hs, hi, _⟩ := canon_progress c h op hop
+      simp only [hs]
+      exact ih c' hi (cons_step N c c' op h hc hs)
+
+theorem cons_init (sk : Sk) : Cons (tasksIn sk) (init sk) := by
+  refine ⟨by simp [init], by simp [load, inflight, init, todoOf], by simp [init]⟩
+
+/-- the configuration of an execution that has ended: one terminal notification, nothing in the queues, nothing in the
+engine's memory -/
+structure Ended (N : Nat) (c : Cfg) : Prop where
+  evq : c.evq = []
+  rpq : c.rpq = []
+  notes : c.notes = 1
+  sentnd : c.sent.Nodup
+  sentlen : c.sent.length = N
+  timers : c.timers = []
+  pending : c.pending = []
+  orphans : c.orphans = []
+  joins : c.joins = []
+
+theorem ended_of_quiet {N : Nat} {c : Cfg} (h : SInv c) (hc : Cons N c) (hq : nextOp c = none) : Ended N c := by
+  have hev := quiet_empty c h hq
+  obtain ⟨hpsi, hphi, hfresh⟩ := hc
+  have hrp : c.rpq = [] := by
+    apply List.eq_nil_iff_forall_not_mem.mpr
+    intro r hr
+    obtain ⟨e, he, _⟩ := hfresh r hr
+    rw [hev] at he; cases he
+  refine ⟨hev, hrp, ?_, h.dur.sentnd, ?_, ?_, ?_, ?_, h.nojoin⟩
+  · rw [hev] at hpsi; simpa using hpsi
+  · simp only [load, inflight, hev, List.map_nil, List.sum_nil, List.filter_nil, List.length_nil] at hphi; omega
+  · apply List.eq_nil_iff_forall_not_mem.mpr
+    intro t ht; have := h.vol.t_sub t ht; rw [hev] at this; cases this
+  · apply List.eq_nil_iff_forall_not_mem.mpr
+    intro t ht; have := (h.vol.p_sub t ht).1; rw [hev] at this; cases this
+  · apply List.eq_nil_iff_forall_not_mem.mpr
+    intro t ht; have := h.vol.o_sub t ht; rw [hrp] at this; cases this
 
 end Asl.Crash
